@@ -28,7 +28,7 @@ def gen_universe_case(rng):
             times += [e - 1, e, e + 1, e + 60, e - 60]
         entries.append([a, e])
     times += [MON + rng.randint(-3000, 3000) * DAY for _ in range(3)]
-    return {'op': 'universe', 'universe': ['dynamic', entries] + ([rng.choice(['nat', 'tz', 'nat+tz', 'pydt', 'tz+pydt'])] if rng.random() < 0.6 else []), 'times': times, 'stream': 'dynamic'}
+    return {'op': 'universe', 'universe': ['dynamic', entries] + ([rng.choice(['nat', 'tz', 'nat+tz', 'pydt', 'tz+pydt', 'latemap', 'tz+latemap'])] if rng.random() < 0.65 else []), 'times': times, 'stream': 'dynamic'}
 
 
 def gen_opt_case(rng):
